@@ -996,7 +996,7 @@ def utc(dt):
             timespan(hours => 3)).utc.hour
         13
     """
-    return dt - dt.utcoffset()
+    return dt.astimezone(UTCTZ)
 
 
 @specs.yaql_property(DATETIME_TYPE)
@@ -1032,7 +1032,7 @@ def timestamp(dt):
         yaql> datetime(2006, 11, 21, 16, 30).timestamp
         1164126600.0
     """
-    return (utc(dt) - DATETIME_TYPE(1970, 1, 1, tzinfo=UTCTZ)).total_seconds()
+    return (dt - DATETIME_TYPE(1970, 1, 1, tzinfo=UTCTZ)).total_seconds()
 
 
 @specs.method
